@@ -560,3 +560,5 @@ for _patch, _props in (('refactors/R3/patch.diff', ('C04', 'C05', 'C06', 'C07', 
                        ('refactors/R6/patch.diff', ('C15', 'C16', 'C18'))):
     for _p in _props:
         MUTANTS.append({'prop': _p, 'name': 'refactor-' + _patch.split('/')[1], 'kind': 'silent', 'patch': _patch})
+M('C06', 'revert-sentinel-slot', S, "empty_array = -np.ones((self.num_reactions, self.num_species + 1, 2), dtype = np.int32)", "empty_array = -np.ones((self.num_reactions, self.num_species, 2), dtype = np.int32)", 'fire', 'R6.4-safe-sentinel/SafeModelCSimInterface')
+M('C17', 'queue-reduce-through-constructor', S, "    @staticmethod\n    def setup_queue(", "    def __reduce__(self):\n        return (ArrayDelayQueue, (self.queue, self.dt, self.next_queue_time - self.dt))\n\n    @staticmethod\n    def setup_queue(", 'fire', 'R17.2-reduce-coverage/ArrayDelayQueue')
